@@ -4,7 +4,7 @@ import (
 	"math"
 )
 
-func float64frombits(b uint64) float64 { return math.Float64frombits(b) }
+func c01Float64frombits(b uint64) float64 { return math.Float64frombits(b) }
 
 // c01Dotted: dotted (linked) symbols reachable from a store - fk chains (nonSetCompositeEntitySymbol), set
 // chains (compositeEntitySetSymbol / stackedCursor), map elements of linked entities, ids of linked entities.
